@@ -18,6 +18,8 @@ pub const NAMES_ADV: &[&str] = &[
     "A", "a ", "Ab",
     // the controls that have a short escape (\b \t \n \f \r), alone and inside a name
     "\r", "\u{c}", "\u{8}", "a\r\nb", "x\u{c}y", "\u{b}\u{c}",
+    // NUL (its only spelling in a Normalized Path is \u0000) and the replacement character as its look-alike
+    "\u{0}", "a\u{0}b", "a\u{FFFD}b",
 ];
 
 /// Names for C15: plain ones plus names that carry quote characters (never both kinds, no backslash),
